@@ -389,6 +389,8 @@ impl Monitors {
                             if resolved != spec.topic {
                                 // find out whether the binding used came from an operation that failed validation
                                 self.viol("C17", "C17.O4-server-reconstructs-wrong-topic", sig(&[("empty_topic", p.topic.is_empty().to_string())]), rec.index, format!("op {}: server would reconstruct '{}' but the application supplied '{}'", tag, resolved, spec.topic));
+                                // the same fact is C02's "an independent decoder recovers exactly the content supplied ... for every alias-resolution outcome"
+                                self.viol("C02", "C02.W2-wire-content", sig(&[("packet", "PUBLISH".into()), ("field", "topic".into())]), rec.index, format!("op {}: a conformant receiver recovers topic '{}' but the application supplied '{}'", tag, resolved, spec.topic));
                             }
                         }
                     }
